@@ -132,16 +132,17 @@ func addLeaf(t Tree, r *Route, s *Segment, h Handler) (Leaf, error) {
 	}
 
 	if leaf.getSegment().Optional {
+		var withoutOptional Leaf
 		parent := leaf.getParent()
 		if parent.getParent() != nil {
-			_, err = addLeaf(parent.getParent(), r, parent.getSegment(), h)
+			withoutOptional, err = addLeaf(parent.getParent(), r, parent.getSegment(), h)
 			if err != nil {
 				return nil, errors.Wrap(err, "add optional leaf to grandparent")
 			}
 		} else {
 			// The optional segment is the only segment of the route, thus the route
 			// without it is "/".
-			_, err = addLeaf(parent, r, &Segment{Slash: "/"}, h)
+			withoutOptional, err = addLeaf(parent, r, &Segment{Slash: "/"}, h)
 			if err != nil {
 				return nil, errors.Wrap(err, "add optional leaf to parent")
 			}
@@ -149,6 +150,7 @@ func addLeaf(t Tree, r *Route, s *Segment, h Handler) (Leaf, error) {
 			// The leaf above is added to the same tree.
 			leaves = t.getLeaves()
 		}
+		leaf.setWithoutOptional(withoutOptional)
 	}
 
 	// Determine leaf position by the priority of match styles.
